@@ -23,6 +23,8 @@ DECIDED_R6 = ('Round 6: the header dictionary is an object of this call; no rang
 DECIDED = DECIDED + ' ' + DECIDED_R6
 DECIDED_R7 = ('Round 7: a pre-check of a byte position tolerates the white space int() tolerates; the verb is read from the environ at every use; the (start, end) pair may be handed over whole.')
 DECIDED = DECIDED + ' ' + DECIDED_R7
+DECIDED_R8 = ("Round 8: the error renderer hands the optional fields of an error to None-tolerant operations only; a method call on the body ('' for HEAD) is under a truth test of it.")
+DECIDED = DECIDED + ' ' + DECIDED_R8
 NOT_DECIDED = ('RFC 7233 arithmetic for every header string (integer semantics of the parser over all strings, e.g. multiple '
                'ranges, whitespace, huge numbers); equality of delivered bytes with the file slice at run time.')
 ASSUMPTIONS = ['file.read(n) returns at most n bytes', 'email.utils.formatdate emits whole seconds']
@@ -212,6 +214,25 @@ def _caught(node, names):
 
 
 def check_stream(P, R):
+    # the range body as an iterator *class*: iter() is called on a response body more than once (by _cast, which peeks the first chunk and chains the rest, and by
+    # servers) - `__iter__` must not position or read the file
+    m_ = P.module(SS)
+    al_ = m_.assigns.get('_file_iter_range')
+    if al_ and isinstance(al_[0], ast.Name) and f'{SS}:{al_[0].id}' in P.classes and f'{SS}:_file_iter_range' not in P.funcs:
+        K = P.classes[f'{SS}:{al_[0].id}']
+        it = K.methods.get('__iter__')
+        nx = K.methods.get('__next__')
+        if it is not None and nx is not None:
+            eff = [c for c in walk_shallow(it.node) if isinstance(c, ast.Call) and isinstance(c.func, ast.Attribute) and c.func.attr in ('seek', 'read', 'readinto', 'truncate', 'close')]
+            for c in eff:
+                R.ob('C17.c', it, c, False, text=f'`{short(c)}` in {K.name}.__iter__: asking for the iterator again does not move the file', detail=
+                     f'`{short(c)}` runs at every iter() of the body: _cast takes the first chunk and then chains the rest (a second iter()), so after the first chunk the file '
+                     f'is positioned at the start of the slice again - the chunks that follow repeat bytes already sent while Content-Range / Content-Length announce the slice',
+                     why='Content-Range, Content-Length and the delivered bytes describe the same slice', key_extra='iter-repositions')
+            if eff:
+                return
+        R.undecided('C17.c', K.fq, None, '_file_iter_range', f'the range body is the iterator class {K.name}: no recogniser for its read accounting')
+        return
     f = P.func(f'{SS}:_file_iter_range')
     g, rd = f.cfg, f.rd
     fp = f.params[0]
@@ -733,6 +754,29 @@ def check_error_page_total(P, R, rid):
     R.ob(rid, f, f.node, True, text=f'renderer: {n_ok} call(s) take the optional fields of the error, all None-tolerant', nontrivial=False, key_extra='none-field-summary')
 
 
+def check_conditional_for_every_verb(P, R, rid):
+    """HEAD yields what GET yields, without the body: the 304 answer does not depend on the request method"""
+    f = P.func(f'{SS}:static_file')
+    g = f.cfg
+    rets = [n for n in g.nodes if n.kind == 'stmt' and isinstance(n.ast, ast.Return) and isinstance(n.ast.value, ast.Call) and any(
+        (k.arg == 'status' and is_const(k.value, 304)) for k in n.ast.value.keywords) or
+        (n.kind == 'stmt' and isinstance(n.ast, ast.Return) and isinstance(n.ast.value, ast.Call) and n.ast.value.args and is_const(n.ast.value.args[0], 304))]
+    for r in rets:
+        bad = None
+        for t in g.nodes:
+            if t.kind != 'test' or t.ast is None:
+                continue
+            verb = any((isinstance(x, ast.Attribute) and x.attr == 'method') or (isinstance(x, ast.Constant) and x.value in ('HEAD', 'REQUEST_METHOD', 'GET')) for x in ast.walk(t.ast))
+            if not verb:
+                tx = T.xsrc(f, t.ast, t) if isinstance(t.ast, ast.Name) else ''
+                verb = '.method' in tx or "'HEAD'" in tx
+            if verb and (g.edge_dominates(t, 'true', r) or g.edge_dominates(t, 'false', r)):
+                bad = t
+        R.ob(rid, f, r.ast, bad is None, text=f'`{short(r.ast)}` is answered whatever the request method', detail='' if bad is None else
+             f'the 304 answer lies behind `{short(bad.ast)}`: a HEAD request with an If-Modified-Since date not older than the file gets the 200 / 206 headers where GET gets 304',
+             why='HEAD yields the same headers with no body', key_extra='304-any-verb')
+
+
 def check_optional_body_calls(P, R, rid):
     """for HEAD static_file keeps '' where the open file would be: a method call on the body that is not under a truth test fails for HEAD"""
     f = P.func(f'{SS}:static_file')
@@ -777,3 +821,4 @@ def check(P, R):
     check_parse_date(P, R)
     check_error_page_total(P, R, 'C17.a')
     check_optional_body_calls(P, R, 'C17.e')
+    check_conditional_for_every_verb(P, R, 'C17.e')
